@@ -94,11 +94,11 @@ func (g *histGen) opOn(st *sStore, x string) hOp {
 		}
 		return op
 	case k < 55: // link churn with x as subject or as target
-		rs := g.w.store(root)
-		if len(rs.Links) > 0 {
-			l := rs.Links[g.r.intn(len(rs.Links))]
+		if links := g.c06LinksOf(root, x); len(links) > 0 {
+			lk := links[g.r.intn(len(links))]
+			l := lk.l
 			if g.r.chance(60) {
-				op := hOp{Kind: "AL", Store: root, Id: x, LinkF: l.Local}
+				op := hOp{Kind: "AL", Store: lk.store, Id: x, LinkF: l.Local}
 				if g.r.chance(35) {
 					op.Kind = "RL"
 				}
@@ -177,6 +177,9 @@ func (g *histGen) validCreate(txs []hTx, st *sStore, id string, depth int) []hTx
 		if t := g.fkTargetOf(owner, f.Name); t != "" {
 			troot := g.rootOf(t)
 			al := g.aliveIds(troot)
+			if c06ChildWirings[g.w.Name] {
+				al = g.aliveIds(t) // the target may be a child store: the referenced entity must live in it
+			}
 			switch {
 			case f.Ptr && g.r.chance(30):
 				delete(op.F, f.Name)
@@ -196,6 +199,9 @@ func (g *histGen) validCreate(txs []hTx, st *sStore, id string, depth int) []hTx
 		}
 	}
 	g.alive[root][id] = true
+	if c06ChildWirings[g.w.Name] && st.Name != root {
+		g.c06MarkChild(st.Name, id)
+	}
 	return append(txs, hTx{Sys: g.r.chance(50), Ops: []hOp{op}})
 }
 
@@ -390,6 +396,9 @@ func (g *histGen) c06BurstCreate(ops []hOp, st *sStore, id string, fix map[strin
 		if t := g.fkTargetOf(owner, f.Name); t != "" {
 			troot := g.rootOf(t)
 			al := g.aliveIds(troot)
+			if c06ChildWirings[g.w.Name] {
+				al = g.aliveIds(t)
+			}
 			switch {
 			case f.Ptr && (len(al) == 0 || g.r.chance(40) || (troot == root && g.r.chance(60))):
 				delete(op.F, f.Name)
@@ -427,6 +436,9 @@ func (g *histGen) c06BurstCreate(ops []hOp, st *sStore, id string, fix map[strin
 		}
 	}
 	g.alive[root][id] = true
+	if c06ChildWirings[g.w.Name] && st.Name != root {
+		g.c06MarkChild(st.Name, id)
+	}
 	return append(ops, op)
 }
 
@@ -449,6 +461,9 @@ func (g *histGen) c06Attach(ops []hOp, e c06Edge, ids []string, x string, create
 			continue
 		}
 		if g.alive[rroot][id] {
+			if e.d.Store != rroot && c06ChildWirings[g.w.Name] && !g.alive[e.d.Store][id] {
+				continue // lives in the parent store only: the child store's fk field cannot be written for it
+			}
 			op := hOp{Kind: "UP", Store: e.d.Store, Id: id, HasChk: true, Checker: []string{e.d.Field}}
 			g.fieldsValue(&op)
 			op.F[e.d.Field] = sp(x)
@@ -526,17 +541,35 @@ func (g *histGen) c06Churn(ops []hOp, e c06Edge, ids []string, x string, created
 // c06LinkOps: entity id of root store root gets links to a window of neighbouring entities of the linked store
 // (missing ones are created first), some are removed again
 func (g *histGen) c06LinkOps(ops []hOp, root, id string) []hOp {
-	rs := g.w.store(root)
-	if len(rs.Links) == 0 || !g.alive[root][id] {
+	links := g.c06LinksOf(root, id)
+	if len(links) == 0 || !g.alive[root][id] {
 		return ops
 	}
-	l := rs.Links[g.r.intn(len(rs.Links))]
+	lk := links[g.r.intn(len(links))]
+	l := lk.l
+	root = lk.store // the store that declares the collection (the root store, or a child store the entity lives in)
 	oroot := g.rootOf(l.Other)
+	if c06ChildWirings[g.w.Name] {
+		oroot = l.Other // the linked entities must live in the (child) store on the other side
+	}
 	pool := c06BurstIds2
 	if g.r.chance(30) {
 		pool = append(append([]string{}, plainIds...), c06BurstIds2...)
 	}
 	win := g.c06Window(pool, 3+g.r.intn(3))
+	if c06ChildWirings[g.w.Name] && oroot != g.rootOf(l.Other) {
+		// an id that is taken by an entity of the parent store which does not live in the child store cannot be linked
+		var keep []string
+		for _, t := range win {
+			if !g.alive[g.rootOf(l.Other)][t] || g.alive[oroot][t] {
+				keep = append(keep, t)
+			}
+		}
+		if len(keep) == 0 {
+			return ops
+		}
+		win = keep
+	}
 	for _, t := range win {
 		if !g.alive[oroot][t] {
 			ops = g.c06BurstCreate(ops, g.w.store(l.Other), t, nil, false, 0)
@@ -572,6 +605,7 @@ func (g *histGen) genBurstC06(h *harnessDb, stats map[string]int) ([]hTx, []stri
 	var obs []string
 	sync := func() {
 		for len(obs) < len(txs) {
+			c06Route(g.w, &txs[len(obs)])
 			obs = append(obs, h.runTxC06(&txs[len(obs)]))
 		}
 		g.refresh(h)
@@ -627,17 +661,18 @@ func (g *histGen) genBurstC06(h *harnessDb, stats map[string]int) ([]hTx, []stri
 		// X of a store with a link collection: linked to 3..5 neighbours that the same transaction created, deleted there
 		var roots []string
 		for _, s := range g.w.Stores {
-			if s.Parent == "" && len(s.Links) > 0 {
+			if (s.Parent == "" || c06ChildWirings[g.w.Name]) && len(s.Links) > 0 {
 				roots = append(roots, s.Name)
 			}
 		}
-		root := roots[g.r.intn(len(roots))]
+		cstore := roots[g.r.intn(len(roots))] // the store that declares the collection: a root store or (child-level wirings) a child store
+		root := g.rootOf(cstore)
 		x := c06Reserved
 		var ops []hOp
-		if al := g.aliveIds(root); len(al) > 0 && g.r.chance(40) {
+		if al := g.aliveIds(cstore); len(al) > 0 && g.r.chance(40) {
 			x = al[g.r.intn(len(al))]
 		} else {
-			ops = g.c06BurstCreate(ops, g.w.store(root), x, nil, true, 0)
+			ops = g.c06BurstCreate(ops, g.w.store(cstore), x, nil, true, 0)
 		}
 		if g.r.chance(35) && len(ops) > 0 {
 			txs = append(txs, hTx{Sys: true, Ops: ops})
@@ -654,7 +689,11 @@ func (g *histGen) genBurstC06(h *harnessDb, stats map[string]int) ([]hTx, []stri
 			sync()
 			ops = g.c06LinkOps(ops, root, x)
 		}
-		ops = append(ops, hOp{Kind: "D", Store: root, Id: x})
+		dstore := root
+		if cstore != root && g.r.chance(50) {
+			dstore = cstore // delete through the child store
+		}
+		ops = append(ops, hOp{Kind: "D", Store: dstore, Id: x})
 		g.markDeleted(root, x)
 		txs = append(txs, hTx{Sys: sys, Ops: ops})
 		bi := len(txs) - 1
@@ -1002,7 +1041,7 @@ func runStoreC06(o *opts) error {
 	if o.thorough() {
 		n = 6000
 	}
-	if o.n > 0 || o.get("corpus", "") != "" {
+	if o.n > 0 || o.get("corpus", "") != "" || o.get("rccorpus", "") != "" {
 		n = o.n
 	}
 	if cp := o.get("corpus", ""); cp != "" {
@@ -1151,8 +1190,96 @@ func runStoreC06(o *opts) error {
 		}
 		stats["validate_deleted_calls"] += strings.Count(strings.Join(obs, ""), " VD:")
 	}
+	// ---- child-level wirings (store_c06_child.go; generated after everything else: the streams above are unchanged)
+	nch := o.getInt("child", -1)
+	if nch < 0 {
+		nch = n / 2
+		if o.thorough() {
+			nch = n / 6
+		}
+	}
+	for i := 0; i < nch; i++ {
+		prof := profileFor("c06")
+		w := wiringByName(c06ChildWiringNames[i%len(c06ChildWiringNames)])
+		w.derive()
+		g := &histGen{r: r, w: w, p: prof, ids: prof.ids}
+		stats["child_wiring_"+w.Name]++
+		kind := (i / len(c06ChildWiringNames)) % 4
+		var c, obsLine, nv string
+		var txs []hTx
+		switch kind {
+		case 3: // the tail of the main stream (offline generation; every other one as a never-existed run)
+			never := (i/(4*len(c06ChildWiringNames)))%2 == 1
+			var bstart, bend int
+			txs, bstart, bend = g.genHistoryC06(never)
+			for k := range txs {
+				c06Route(w, &txs[k])
+			}
+			var err error
+			c, obsLine, nv, err = c06Case(w, txs, bstart, bend, tmp)
+			if err != nil {
+				return err
+			}
+			stats["child_tail_histories"]++
+			if never {
+				stats["never_existed_runs"]++
+			}
+		default:
+			h, err := openHarnessDb(w, tmp)
+			if err != nil {
+				return err
+			}
+			var obs []string
+			if kind == 2 {
+				txs, obs, _ = g.genBurstC06(h, stats)
+				stats["child_burst_histories"]++
+			} else {
+				txs, obs = g.genChildC06(h, stats)
+				stats["child_subject_histories"]++
+			}
+			h.close()
+			var cb strings.Builder
+			cb.WriteString(w.text())
+			for k := range txs {
+				cb.WriteString(" ")
+				cb.WriteString(w.txText(&txs[k]))
+			}
+			c, obsLine, nv = cb.String(), strings.Join(obs, ""), "-"
+		}
+		cases.line("%s", c)
+		impl.line("%s", obsLine)
+		nev.line("%s", nv)
+		stats["child_histories"]++
+		stats["child_tx"] += len(txs)
+		stats["child_obs_commit"] += strings.Count(obsLine, " COMMIT")
+		stats["child_obs_rollback"] += strings.Count(obsLine, " ROLLBACK")
+		stats["validate_deleted_calls"] += strings.Count(obsLine, " VD:")
+		for _, t := range txs {
+			for _, op := range t.Ops {
+				if s := w.store(op.Store); s != nil && s.Parent != "" {
+					stats["child_op_"+op.Kind+"_through_child_store"]++
+				}
+			}
+		}
+	}
+	// ---- ref-counted link collections declared on child stores (generated last)
+	nrcc := o.getInt("rcchild", -1)
+	if nrcc < 0 {
+		nrcc = nrc / 2
+	}
+	for i := 0; i < nrcc; i++ {
+		line := genRcChildCase(r)
+		obs, err := runRcCase(line, tmp)
+		if err != nil {
+			return err
+		}
+		rcc.line("%s", line)
+		rci.line("%s", obs)
+		stats["rc_child_histories"]++
+		stats["rc_tx"] += strings.Count(line, " TX")
+	}
 	writeJSON(o.out, "stats.json", stats)
-	fmt.Fprintf(os.Stderr, "storec06: %d histories, %d rc histories, %d burst histories\n", n, nrc, nb)
+	fmt.Fprintf(os.Stderr, "storec06: %d histories, %d rc histories, %d burst histories, %d child-level histories, %d rc child-level histories\n", n, nrc, nb, nch, nrcc)
 	return nil
 }
 
@@ -1193,7 +1320,7 @@ type rcDb struct {
 	field  map[string]string
 }
 
-func openRcDb(dir string) (*rcDb, error) {
+func openRcDb(dir string, children bool) (*rcDb, error) {
 	path := filepath.Join(dir, fmt.Sprintf("rc-%d.db", os.Getpid()))
 	_ = os.Remove(path)
 	db, err := boltz.Open(path, "root")
@@ -1223,10 +1350,14 @@ func openRcDb(dir string) (*rcDb, error) {
 	p.AddUniqueIndex(pname)
 	h.rc["p"] = p.AddRefCountedLinkCollection(pqs, qps)
 	h.rc["q"] = q.AddRefCountedLinkCollection(qps, pqs)
+	if children {
+		c06RcAddChildren(h)
+	}
 	err = db.Update(nil, func(ctx boltz.MutateContext) error {
 		holder := &errHolder{}
-		p.InitializeIndexes(ctx.Tx(), holder)
-		q.InitializeIndexes(ctx.Tx(), holder)
+		for _, st := range h.stores {
+			st.InitializeIndexes(ctx.Tx(), holder)
+		}
 		return holder.err
 	})
 	if err != nil {
@@ -1372,6 +1503,10 @@ func (h *rcDb) rcFacts() []string {
 					if sub == nil || ignoredFields[string(fk)] {
 						return nil
 					}
+					if c06RcChildStores[string(fk)] != "" {
+						c06RcChildFacts(&out, name, hx(ik), string(fk), sub)
+						return nil
+					}
 					return sub.ForEach(func(mk, mv []byte) error {
 						if len(mk) > 0 && boltz.FieldType(mk[0]) == boltz.TypeString {
 							cnt := "?"
@@ -1408,15 +1543,15 @@ func (v *rcIdxVisitor) VisitKeyValue(path string, key, value []byte) bool {
 }
 
 func runRcCase(line string, dir string) (string, error) {
-	h, err := openRcDb(dir)
+	toks := strings.Fields(line)
+	if len(toks) == 0 || (toks[0] != "RC" && toks[0] != "RCC") {
+		return "", fmt.Errorf("rc case must start with RC or RCC")
+	}
+	h, err := openRcDb(dir, toks[0] == "RCC")
 	if err != nil {
 		return "", err
 	}
 	defer h.close()
-	toks := strings.Fields(line)
-	if len(toks) == 0 || toks[0] != "RC" {
-		return "", fmt.Errorf("rc case must start with RC")
-	}
 	pos := 1
 	next := func() string { t := toks[pos]; pos++; return t }
 	var sb strings.Builder
@@ -1451,13 +1586,13 @@ func runRcCase(line string, dir string) (string, error) {
 				st := h.stores[op.store]
 				switch op.kind {
 				case "C":
-					ent := &rcEnt{etype: op.store, Name: op.store + "-" + op.id}
+					ent := &rcEnt{etype: c06RcRoot(op.store), Name: c06RcRoot(op.store) + "-" + op.id}
 					ent.Id = op.id
 					e = st.Create(ctx, ent)
 				case "D":
 					e = st.DeleteById(ctx, op.id)
 					if e == nil {
-						deleted = append(deleted, [2]string{op.store, op.id})
+						deleted = append(deleted, [2]string{c06RcRoot(op.store), op.id})
 					}
 				case "INC":
 					_, e = h.rc[op.store].IncrementLinkCount(ctx.Tx(), []byte(op.id), []byte(op.other))
